@@ -61,6 +61,8 @@ pub struct World {
     pub client_gap: i128,
     pub client_reads: u32,
     pub keep_log: bool,
+    /// Total time spent suspended: CLOCK_BOOTTIME = monotonic + this.
+    pub suspended: i128,
 }
 
 impl World {
@@ -89,8 +91,14 @@ impl World {
                 self.advance(g);
             }
         }
-        let v = if real {
+        let v = if clk == libc::CLOCK_REALTIME_COARSE {
+            // the value of the system clock at the last kernel tick (4 ms)
+            let r = self.realtime_ns();
+            r - r.rem_euclid(4_000_000)
+        } else if real {
             self.realtime_ns()
+        } else if clk == libc::CLOCK_BOOTTIME || clk == libc::CLOCK_BOOTTIME_ALARM {
+            self.mono_ns() + self.suspended
         } else {
             let m = self.mono_ns();
             if clk == libc::CLOCK_MONOTONIC_COARSE && self.coarse_tick > 0 {
@@ -290,6 +298,7 @@ struct Obs {
     answers_in_sync_phase: u64,
     restarts: u64,
     reboots: u64,
+    suspends: u64,
     polls: u64,
     order_checks: u64,
     gap_checks: u64,
@@ -587,7 +596,7 @@ fn one_history(a: &Args, mode: &str, seed: u64, obs: &mut Obs, violations: &mut 
         _ => rng.range(-50_000_000, 50_000_000) as i128 * UNIT,
     };
     let tick = if mode == "c01" && arg_tick(a) > 0 && rng.chance(1, 3) { arg_tick(a) } else { 0 };
-    let world = Arc::new(Mutex::new(World { t: t0, t_boot: t0 - uptime_s * NS - rng.range(0, 999_999_999) as i128, err_units: err0, rate_ppb: 0, d_ppb, coarse_tick: tick, log: Vec::new(), client_gap: 0, client_reads: 0, keep_log: false }));
+    let world = Arc::new(Mutex::new(World { t: t0, t_boot: t0 - uptime_s * NS - rng.range(0, 999_999_999) as i128, err_units: err0, rate_ppb: 0, d_ppb, coarse_tick: tick, log: Vec::new(), client_gap: 0, client_reads: 0, keep_log: false, suspended: 0 }));
     install(&world);
     let dir = workdir(&format!("w{}", a.shard));
     let path = dir.join("shm");
@@ -725,6 +734,19 @@ fn one_history(a: &Args, mode: &str, seed: u64, obs: &mut Obs, violations: &mut 
                 _ => Step::Answer { kind: AnswerKind::Unsync, request_latency: 0, reply_latency: 0, tight: false, ref_id: 0x7f7f_0101, phc_share: 0 },
             });
         }
+        // --- the machine is suspended and resumed: true time and the wall clock move on (the
+        // persistent clock is taken as exact: the clock error does not change), the monotonic
+        // clock stands still, CLOCK_BOOTTIME runs ahead of it from now on.
+        if rng.chance(1, 150) {
+            let s_ns = *rng.pick(&[1_500_000_000i128, 30 * NS, 3600 * NS]);
+            let mut w = world.lock().unwrap();
+            w.t += s_ns;
+            w.t_boot += s_ns;
+            w.suspended += s_ns;
+            drop(w);
+            obs.suspends += 1;
+            history.push(format!("#{} machine suspended for {} ns", n, s_ns));
+        }
         // --- PHC file trouble
         if with_phc && rng.chance(1, 25) {
             phc_broken = !phc_broken;
@@ -828,7 +850,7 @@ pub fn run(mode: &str, a: &Args) -> Value {
     }
     let mut v = json!({
         "evaluations": evaluations, "distinct": distinct.len(), "polls": obs.polls, "answers_by_status": obs.answers_by_status, "outcomes_by_kind": obs.outcomes_by_kind,
-        "adversarial_instants": obs.adversarial_instants, "min_margin_ns": obs.min_margin_ns.map(|m| m.to_string()), "restarts": obs.restarts, "reboots": obs.reboots,
+        "adversarial_instants": obs.adversarial_instants, "min_margin_ns": obs.min_margin_ns.map(|m| m.to_string()), "restarts": obs.restarts, "reboots": obs.reboots, "suspends": obs.suspends,
         "trusted_in_sync_phase": obs.trusted_in_sync_phase, "answers_in_sync_phase": obs.answers_in_sync_phase, "order_checks": obs.order_checks, "gap_checks": obs.gap_checks,
         "msg_checks": obs.msg_checks, "client_errors": obs.client_errors, "violations": violations, "samples": samples,
     });
